@@ -655,6 +655,8 @@ def _failures(tname, v, tail, memo, path='$'):
     if not diff_fails and not own and path == '$':
         # a second parse of the SAME cell object: same result, and parsing left the cell itself untouched (no parser state carried
         # between calls, no parser that eats the cells it walks)
+        from harness.core import scramble
+        scramble(obj)                       # the first result is the caller's: every flag / number / byte string in it edited
         okb, objb = call(_lib_class(tname).deserialize, lc.begin_parse())
         if not okb:
             own.append(Fail(f'{where}/second-parse-of-the-same-cell/raises/{exc_sig(objb)}', repr(objb)))
